@@ -166,6 +166,9 @@ def harness(env, case):
         # callee role: a column of that name is always present as a decoy that must be skipped
         cols[head] = datacol
     df = env.frame(cols)
+    if head not in cols:
+        # a decoy: the frame's index carries the probe name; only columns count as data
+        df.index = pd.Index([101.0 + 3.0 * i for i in range(len(df))], name=head)
     # (filled below, once the winner is known)
     extra = {}
 
